@@ -518,6 +518,17 @@ func (x *run) checkLedger(rs *repState, nb *bugObs, b *bug.Bug) {
 		x.violate("order-or-time-differs", "bug %s: %d operations read, %d stored", id[:7], len(gb), len(ops))
 		return
 	}
+	// what one replica appended to a bug one after the other reads back in that order,
+	// wherever it is read: each append was made on top of the previous one
+	lastSeq, lastOp := map[int]int{}, map[int]string{}
+	for _, ro := range ops {
+		if lo, ok := x.ledger[ro.Id]; ok && lo.Bug == id {
+			if lo.Seq < lastSeq[lo.Rep] {
+				x.violate("order-or-time-differs", "bug %s on %s: operation %s was appended on replica %d before operation %s, but reads back after it", id[:7], rs.r.Name, ro.Id[:7], lo.Rep, lastOp[lo.Rep][:7])
+			}
+			lastSeq[lo.Rep], lastOp[lo.Rep] = lo.Seq, ro.Id
+		}
+	}
 	for i, ro := range ops {
 		g := gb[i]
 		if string(g.Id()) != ro.Id {
